@@ -23,7 +23,11 @@ RULE = ("every program AST with at most S nodes over {await fresh Deferred, yiel
         "try/except, try/finally (return/await allowed inside finally), 2-iteration loop, call of a nested function "
         "implemented as inlineCallbacks generator / ensureDeferred(coroutine) / bare coroutine object}; for every "
         "program every assignment, in dynamic order, of {already fired with value, already fired with failure, fires "
-        "later with value, fires later with failure} to the awaited Deferreds, and at every suspension either the "
+        "later with value, fires later with failure, already fired but pause()d with a queued callback that produces the "
+        "final value / failure and unpaused later, already fired but chained to an unfired inner Deferred that later "
+        "fires with value / failure} to the awaited Deferreds (for the larger programs the paused/chained variants are "
+        "not a choice: the transport of every not-yet-available Deferred is rotated plain/paused/chained by (await index "
+        "+ program index) mod 3), and at every suspension either the "
         "awaited Deferred fires or the returned Deferred is cancelled with the awaited Deferred's canceller in {none, "
         "no-op, fires value, fires failure} (mc.choice.explore, cancels bounded per execution); every such execution "
         "is run as an inlineCallbacks generator and as a coroutine and compared with the synchronous run of the same "
@@ -32,27 +36,35 @@ RULE = ("every program AST with at most S nodes over {await fresh Deferred, yiel
         "an application exception that escapes from the call, from callback()/errback()/cancel() or into the awaited "
         "Deferred's chain is a violation. non-trivial = distinct (program, decision list) pairs with at least one real suspension "
         "(an unfired Deferred was awaited)")
-BOUNDS = {"quick": "every AST with <= 4 nodes (loops not nested) with <= 2 cancels per execution, plus every 5-node AST of the "
-                   "reduced grammar (no plain-value statement; nested calls as inlineCallbacks / bare coroutine) with <= 1 "
-                   "cancel; a no-op cancel after completion in every execution",
-          "thorough": "every AST with <= 5 nodes with <= 2 cancels per execution, plus every 6-node AST of the reduced grammar "
-                      "with <= 1 cancel"}
+BOUNDS = {"quick": "every AST with <= 4 nodes (loops not nested): all 8 awaited-Deferred states with <= 1 cancel, and 4 states + "
+                   "rotated transport with <= 2 cancels; every 5-node AST of the reduced grammar (no plain-value statement; "
+                   "nested calls as inlineCallbacks / bare coroutine), rotated transport, <= 1 cancel; a no-op cancel "
+                   "after completion in every execution",
+          "thorough": "as quick for <= 4 nodes; every 5-node AST (full grammar), rotated transport, <= 2 cancels; every 6-node "
+                      "AST of the reduced grammar, rotated transport, <= 1 cancel"}
 ASSUMPTIONS = [
     "a Deferred that fires before the function awaits it is indistinguishable, for inlineCallbacks, from one fired "
     "before the call (no callback is attached until it is yielded), so 'outcomes arrive in any order' reduces to the "
     "fired/unfired state of each Deferred at the moment it is awaited; the function is sequential, so at most one "
     "Deferred is outstanding",
-    "each Deferred is awaited at most once; awaited Deferreds are never paused or chained by the environment",
+    "each Deferred is awaited at most once; a paused awaited Deferred is unpaused exactly once, by the environment; "
+    "cancel() of a fired-but-paused awaited Deferred has no effect (documented), so the function keeps waiting and "
+    "the synchronous oracle uses the post-unpause result; at most one cancel per suspension",
     "the three interpreters are one source text; Python's own semantics of generators/coroutines/try/finally are trusted",
     "coroutines cannot await plain values: the 'plain value' statement is a local assignment there",
     "cancellers that raise, and cancel() from inside the function itself, are outside the alphabet",
 ]
-MIN = {"quick": {"evaluations": 700000, "nontrivial": 650000, "outcomes": 9},
+MIN = {"quick": {"evaluations": 950000, "nontrivial": 900000, "outcomes": 9},
        "thorough": {"evaluations": 12000000, "nontrivial": 11000000, "outcomes": 7}}
 
 NSHARDS = 64
 CANC = ("none", "noop", "value", "fail")
 KINDS = ("pre-ok", "pre-fail", "later-ok", "later-fail")
+# paused-*: the awaited Deferred has already fired (stale value) but is pause()d, a callback queued behind the pause
+#           turns the stale value into the final value / failure; the environment unpause()s it later
+# chained-*: the awaited Deferred has already fired but its chain is suspended on an unfired inner Deferred
+KINDS8 = KINDS + ("paused-ok", "paused-fail", "chained-ok", "chained-fail")
+TRANSPORT = ("later", "paused", "chained")
 NESTED = ("icb", "ens", "raw")
 
 
@@ -204,9 +216,10 @@ class ModelEnv(BaseEnv):
     """Synchronous world: ``resolve`` blocks until the Deferred has an outcome; the chooser decides what the
     environment does meanwhile."""
 
-    def __init__(self, ch, max_cancels):
+    def __init__(self, ch, max_cancels, mode=None):
         BaseEnv.__init__(self)
         self.ch = ch
+        self.mode = mode        # None: all 8 states are a choice; int: 4 states, transport rotated by (index + mode) % 3
         self.decisions = []     # per dynamic await: [kind, canceller-or-None]
         self.max_cancels = max_cancels
         self.ncancels = 0
@@ -215,7 +228,12 @@ class ModelEnv(BaseEnv):
     def fresh(self):
         self.nfresh += 1
         j = len(self.decisions)
-        kind = KINDS[self.ch.choose(4, "state of awaited Deferred #%d" % j, free=True)]
+        if self.mode is None:
+            kind = KINDS8[self.ch.choose(8, "state of awaited Deferred #%d" % j, free=True)]
+        else:
+            kind = KINDS[self.ch.choose(4, "state of awaited Deferred #%d" % j, free=True)]
+            if kind.startswith("later"):
+                kind = TRANSPORT[(j + self.mode) % 3] + kind[5:]
         self.decisions.append([kind, None])
         return j
 
@@ -227,10 +245,18 @@ class ModelEnv(BaseEnv):
             raise app_exc(("e", j), j)
         self.suspensions += 1
         c = 0
-        if self.ncancels < self.max_cancels:
+        if kind.startswith("paused"):
+            # cancel() of a fired, paused Deferred has no effect: the function keeps waiting for unpause()
+            if self.ncancels < self.max_cancels:
+                c = self.ch.choose(2, "at suspension on paused #%d: unpause / cancel then unpause" % j)
+            if c:
+                self.ncancels += 1
+                self.decisions[j][1] = "no-effect"
+            c = 0
+        elif self.ncancels < self.max_cancels:
             c = self.ch.choose(1 + len(CANC), "at suspension on #%d: fire / cancel(canceller kind)" % j)
         if c == 0:
-            if kind == "later-ok":
+            if kind.endswith("-ok"):
                 return ("v", j)
             raise app_exc(("e", j), j)
         self.ncancels += 1
@@ -252,8 +278,10 @@ class Obs(Deferred):
     def __init__(self, canceller=None):
         Deferred.__init__(self, canceller)
         self.liveCancels = 0
+        self.calls = 0
 
     def cancel(self):
+        self.calls += 1
         if not self.called:
             self.liveCancels += 1
         Deferred.cancel(self)
@@ -264,6 +292,7 @@ class RealEnv(BaseEnv):
         BaseEnv.__init__(self)
         self.decisions = decisions
         self.ds = []
+        self.probe = []         # where callback()/errback() of the pending operation goes (inner Deferred if chained)
         self.outstanding = []
         self.diverged = False
         self.canceller_runs = []
@@ -288,8 +317,30 @@ class RealEnv(BaseEnv):
             def c(d, j=j):
                 self.canceller_runs.append(j)
                 d.errback(app_exc(("ce", j), j + 1))
+        if kind.startswith("chained"):
+            inner = Obs(c)
+            d = Obs()
+            d.addCallback(lambda _, inner=inner: inner)
+            d.callback(("stale", j))
+            self.ds.append(d)
+            self.probe.append(inner)
+            self.outstanding.append(j)
+            return d
+        if kind.startswith("paused"):
+            d = Obs()
+            d.pause()
+            d.callback(("stale", j))
+            if kind == "paused-ok":
+                d.addCallback(lambda _, j=j: ("v", j))
+            else:
+                d.addCallback(lambda _, j=j: Failure(app_exc(("e", j), j)))
+            self.ds.append(d)
+            self.probe.append(d)
+            self.outstanding.append(j)
+            return d
         d = Obs(c)
         self.ds.append(d)
+        self.probe.append(d)
         if kind == "pre-ok":
             d.callback(("v", j))
         elif kind == "pre-fail":
@@ -312,8 +363,8 @@ def describe(r):
     return ("return", r)
 
 
-def run_model(program, ch, max_cancels):
-    env = ModelEnv(ch, max_cancels)
+def run_model(program, ch, max_cancels, mode=None):
+    env = ModelEnv(ch, max_cancels, mode)
     try:
         final = ("return", sync_function(env, program))
     except (Exception, AppBase) as e:
@@ -357,17 +408,27 @@ def run_real(flavour, program, decisions, exp_trace, exp_final):
                 bad.append((comp + ":returned-deferred-fired-while-function-still-waits" + suffix(),
                             "fired with %r while awaiting #%d" % (describe(fired[0]), j)))
                 break
-            if canc is None:
-                if kind == "later-ok":
-                    d.callback(("v", j))
+            transport = kind.split("-")[0]
+            target = env.probe[j]
+
+            def deliver():
+                if transport == "paused":
+                    d.unpause()
+                elif kind.endswith("-ok"):
+                    target.callback(("v", j))
                 else:
-                    d.errback(app_exc(("e", j), j))
+                    target.errback(app_exc(("e", j), j))
+
+            if canc is None:
+                deliver()
                 continue
             before = [x.liveCancels for x in env.ds]
+            calls0 = d.calls
             ret.cancel()
             cancelled = True
             after = [x.liveCancels for x in env.ds[:len(before)]]
             delta = [a - b for a, b in zip(after, before)]
+            delta[j] = d.calls - calls0      # the awaited one may already be `called` (paused / chained): count calls
             want = [1 if k == j else 0 for k in range(len(before))]
             if delta != want:
                 if delta[j] == 0:
@@ -376,14 +437,14 @@ def run_real(flavour, program, decisions, exp_trace, exp_final):
                     sig = comp + ":awaited-deferred-cancelled-more-than-once"
                 else:
                     sig = comp + ":cancel-delivered-to-other-deferred"
-                bad.append((sig, "cancel() calls on unfired Deferreds %r, awaited was #%d" % (delta, j)))
+                if transport != "later":
+                    sig += ":awaited-" + transport
+                bad.append((sig, "cancel() calls %r, awaited was #%d (%s)" % (delta, j, kind)))
                 break
-            if canc == "none":
+            if transport == "paused" or canc == "none":
+                # paused: the cancel had no effect, the environment unpauses later;
                 # canceller-less Deferred: the late result of the operation is dropped silently
-                if kind == "later-ok":
-                    d.callback(("v", j))
-                else:
-                    d.errback(app_exc(("e", j), j))
+                deliver()
         if not bad:
             # cancel after completion must be a no-op
             n0 = len(fired)
@@ -510,14 +571,19 @@ def programs(full_upto, reduced_upto=0):
 
 
 def tier_programs(tier):
-    """-> list of (program, max_cancels)"""
+    """-> list of (program, max_cancels, mode); mode None = all 8 awaited-Deferred states are a choice,
+    mode k = 4 states with the transport of unfired ones (plain / paused / chained) rotated by (await index + k) % 3"""
+    small = programs(4)
+    out = [(p, 1, None) for p in small] + [(p, 2, i) for i, p in enumerate(small)]
     if tier == "quick":
-        full = programs(4)
         both = programs(4, 5)
-        return [(p, 2) for p in full] + [(p, 1) for p in both[len(full):]]
+        out += [(p, 1, i) for i, p in enumerate(both[len(small):])]
+        return out
     full = programs(5)
     both = programs(5, 6)
-    return [(p, 2) for p in full] + [(p, 1) for p in both[len(full):]]
+    out += [(p, 2, i) for i, p in enumerate(full[len(small):])]
+    out += [(p, 1, i) for i, p in enumerate(both[len(full):])]
+    return out
 
 
 def shards(tier, seed):
@@ -530,10 +596,10 @@ def to_tuple(x):
     return x
 
 
-def check_execution(program, choices, max_cancels):
+def check_execution(program, choices, max_cancels, mode=None):
     """Run model with the given choice prefix, then both real flavours.  -> (violations, model env, final)"""
     ch = Chooser(choices)
-    menv, final = run_model(program, ch, max_cancels)
+    menv, final = run_model(program, ch, max_cancels, mode)
     out = []
     for fl in ("icb", "coro"):
         bad, _ = run_real(fl, program, menv.decisions, menv.trace, final)
@@ -548,10 +614,10 @@ def run_shard(shard, tier, seed):
     warnings.simplefilter("ignore")
     mine = range(k, len(progs), n)
     for idx in mine:
-        program, max_cancels = progs[idx]
+        program, max_cancels, mode = progs[idx]
 
         def run(ch):
-            return run_model(program, ch, max_cancels)
+            return run_model(program, ch, max_cancels, mode)
 
         for ch, (menv, final) in explore(run, bound=max_cancels):
             st.evaluations += 1
@@ -564,7 +630,7 @@ def run_shard(shard, tier, seed):
                 bad, _ = run_real(fl, program, menv.decisions, menv.trace, final)
                 for sig, detail in bad:
                     st.violation(sig, detail, {"program": program, "choices": ch.choices, "max_cancels": max_cancels,
-                                               "flavour": fl, "decisions": menv.decisions})
+                                               "mode": mode, "flavour": fl, "decisions": menv.decisions})
             if st.evaluations % 50021 == 1:
                 st.sample({"program": program, "decisions": menv.decisions, "trace": menv.trace, "final": final})
     st.count("programs", len(mine))
@@ -574,5 +640,5 @@ def run_shard(shard, tier, seed):
 def replay(w):
     warnings.simplefilter("ignore")
     program = to_tuple(w["program"])
-    bad, menv, final = check_execution(program, list(w["choices"]), w["max_cancels"])
+    bad, menv, final = check_execution(program, list(w["choices"]), w["max_cancels"], w.get("mode"))
     return [(s, d) for s, d in bad]
